@@ -1,0 +1,86 @@
+//go:build verif
+
+// Contracts for package nyctalerts, read by the /verif VC generator (govc). Comments only.
+
+package nyctalerts
+
+//@ pure func mercurySel(s *gtfsrt.EntitySelector) *gtfsrt.MercuryEntitySelector = getExtRef(s, "E_MercuryEntitySelector")
+//@ pure func strOf(p *string) string = p == nil ? "" : *p
+
+// A group alert is well formed when its informed entities are non-nil, carry a stop id, and no stop id occurs twice
+// (C17: "exactly the distinct platform ids (or station ids) of the group's members").
+//@ pure func groupOK(a *gtfsrt.Alert) bool = a != nil && (forall k int :: 0 <= k && k < len(a.InformedEntity) ==> a.InformedEntity[k] != nil && a.InformedEntity[k].StopId != nil) && (forall x int, y int :: 0 <= x && x < y && y < len(a.InformedEntity) ==> *a.InformedEntity[x].StopId != *a.InformedEntity[y].StopId)
+//@ pure func groupsOK(e extension) bool = e.elevatorAlerts != nil && (forall g string :: has(e.elevatorAlerts, g) ==> e.elevatorAlerts[g] != nil) && (forall g string, k int :: has(e.elevatorAlerts, g) && 0 <= k && k < len(e.elevatorAlerts[g].InformedEntity) ==> e.elevatorAlerts[g].InformedEntity[k] != nil && e.elevatorAlerts[g].InformedEntity[k].StopId != nil)
+//@ pure func distinctStops(a *gtfsrt.Alert) bool = forall x int, y int :: 0 <= x && x < y && y < len(a.InformedEntity) ==> *a.InformedEntity[x].StopId != *a.InformedEntity[y].StopId
+//@ pure func informsStop(a *gtfsrt.Alert, id string) bool = exists k int :: 0 <= k && k < len(a.InformedEntity) && *a.InformedEntity[k].StopId == id
+
+//@ func Extension
+//@   props C17 C05 C06
+//@   ensures result != nil
+//@   assigns nothing
+
+//@ func (extension).NewParse
+//@   props C17 C06 C18 C05
+//@   ensures [fresh-state-per-parse] result != nil
+//@   assigns nothing
+
+// C17: priority = the integer after the last ':' of the Mercury sort order
+//@ func getPriorityFromInformedEntity
+//@   props C17 C05 C06
+//@   inline
+//@   ensures [no-mercury-data] !hasExt(informedEntity, "E_MercuryEntitySelector") ==> !result.1
+//@   assigns nothing
+
+//@ func buildMetadata
+//@   props C17 C05 C06
+//@   ensures [no-mercury-alert] !hasExt(alert, "E_MercuryAlert") ==> !result.1 && result.0 == ""
+//@   assigns nothing
+
+//@ func (extension).updateElevatorAlert
+//@   props C17 C05 C06
+//@   requires ID != nil && alert != nil && groupsOK(e)
+//@   requires [id-not-owned-by-a-group] forall g string, k int :: has(e.elevatorAlerts, g) && 0 <= k && k < len(e.elevatorAlerts[g].InformedEntity) ==> e.elevatorAlerts[g].InformedEntity[k].StopId != ID
+//@   ensures [not-an-elevator-alert-untouched] !elevatorID(old(*ID)) ==> !result && *ID == old(*ID) && *alert == old(*alert) && groupsOK(e)
+//@   ensures [cause-and-effect] elevatorID(old(*ID)) ==> alert.Cause != nil && *alert.Cause == 9 && alert.Effect != nil && *alert.Effect == 11
+//@   ensures [group-id-by-policy] elevatorID(old(*ID)) ==> *ID == groupID(e.opts.ElevatorAlertsDeduplicationPolicy, old(*ID))
+//@   ensures [first-member-opens-the-group] elevatorID(old(*ID)) && !old(has(e.elevatorAlerts, groupID(e.opts.ElevatorAlertsDeduplicationPolicy, *ID))) ==> !result && e.elevatorAlerts[*ID] == alert && len(alert.InformedEntity) == 1 && *alert.InformedEntity[0].StopId == informedID(e.opts.ElevatorAlertsInformUsingStationIDs, old(*ID))
+//@   ensures [later-members-join-it] elevatorID(old(*ID)) && old(has(e.elevatorAlerts, groupID(e.opts.ElevatorAlertsDeduplicationPolicy, *ID))) ==> result && e.elevatorAlerts[*ID] == old(e.elevatorAlerts[groupID(e.opts.ElevatorAlertsDeduplicationPolicy, *ID)]) && informsStop(e.elevatorAlerts[*ID], informedID(e.opts.ElevatorAlertsInformUsingStationIDs, old(*ID)))
+//@   ensures [groups-stay-well-formed] groupsOK(e)
+//@   ensures [no-stop-listed-twice] elevatorID(old(*ID)) && (old(has(e.elevatorAlerts, groupID(e.opts.ElevatorAlertsDeduplicationPolicy, *ID))) ==> old(distinctStops(e.elevatorAlerts[groupID(e.opts.ElevatorAlertsDeduplicationPolicy, *ID)]))) ==> distinctStops(e.elevatorAlerts[*ID])
+//@   ensures [only-this-members-stop-is-added] elevatorID(old(*ID)) && old(has(e.elevatorAlerts, groupID(e.opts.ElevatorAlertsDeduplicationPolicy, *ID))) ==> len(e.elevatorAlerts[*ID].InformedEntity) <= old(len(e.elevatorAlerts[groupID(e.opts.ElevatorAlertsDeduplicationPolicy, *ID)].InformedEntity)) + 1 && (forall k int :: 0 <= k && k < old(len(e.elevatorAlerts[groupID(e.opts.ElevatorAlertsDeduplicationPolicy, *ID)].InformedEntity)) ==> e.elevatorAlerts[*ID].InformedEntity[k] == old(e.elevatorAlerts[groupID(e.opts.ElevatorAlertsDeduplicationPolicy, *ID)].InformedEntity[k]))
+//@   loop 1 invariant deduplicatedAlert != nil && (forall j int :: 0 <= j && j < $i ==> *deduplicatedAlert.InformedEntity[j].StopId != informedEntityID)
+
+// the regular expression's view of an elevator alert id: station (3 alphanumerics) + optional N/S + "#EL" + elevator
+//@ pure func elevatorID(id string) bool = elevatorMatches(id)
+//@ pure func groupID(policy ElevatorAlertsDeduplicationPolicy, id string) string = policy == DeduplicateInStation ? elevStation(id) + "#EL" + elevElevator(id) : (policy == DeduplicateInComplex ? "elevator:EL" + elevElevator(id) : elevStation(id) + elevDirection(id) + "#EL" + elevElevator(id))
+//@ pure func informedID(useStation bool, id string) string = useStation ? elevStation(id) : elevStation(id) + elevDirection(id)
+
+// ----------------------------------------------------------------------------------------------------------------
+// C17: UpdateAlert. prioOK/prioVal: the Mercury priority of an informed entity, as the real
+// getPriorityFromInformedEntity computes it (its SSA is the definition).
+//@ pure func prioOK(s *gtfsrt.EntitySelector) bool = getPriorityFromInformedEntity(s).1
+//@ pure func prioVal(s *gtfsrt.EntitySelector) gtfsrt.MercuryEntitySelector_Priority = getPriorityFromInformedEntity(s).0
+//@ pure func timetabledNoService(s *gtfsrt.EntitySelector) bool = prioOK(s) && timetabledNoServicePriorities[prioVal(s)]
+// the table names exactly the three "no scheduled service at this time of day/week" priorities
+//@ lemma timetabled_table C17 : forall p gtfsrt.MercuryEntitySelector_Priority :: timetabledNoServicePriorities[p] <==> (p == gtfsrt.MercuryEntitySelector_PRIORITY_NO_MIDDAY_SERVICE || p == gtfsrt.MercuryEntitySelector_PRIORITY_NO_OVERNIGHT_SERVICE || p == gtfsrt.MercuryEntitySelector_PRIORITY_NO_WEEKEND_SERVICE)
+//@ pure func causeOf(a *gtfsrt.Alert) gtfsrt.Alert_Cause = a.Cause == nil ? gtfsrt.Alert_UNKNOWN_CAUSE : *a.Cause
+
+//@ func (extension).UpdateAlert
+//@   props C17 C05 C06
+//@   requires ID != nil && alert != nil && groupsOK(e)
+//@   requires [id-not-owned-by-a-group] forall g string, k int :: has(e.elevatorAlerts, g) && 0 <= k && k < len(e.elevatorAlerts[g].InformedEntity) ==> e.elevatorAlerts[g].InformedEntity[k].StopId != ID
+//@   ensures [cause-planned-work] !result && !elevatorID(old(*ID)) && hasPrefix(old(*ID), "lmm:planned_work") ==> alert.Cause != nil && *alert.Cause == gtfsrt.Alert_MAINTENANCE
+//@   ensures [cause-alert] !result && !elevatorID(old(*ID)) && !hasPrefix(old(*ID), "lmm:planned_work") && hasPrefix(old(*ID), "lmm:alert") ==> alert.Cause != nil && *alert.Cause == gtfsrt.Alert_TECHNICAL_PROBLEM
+//@   ensures [cause-otherwise-kept] !result && !elevatorID(old(*ID)) && !hasPrefix(old(*ID), "lmm:planned_work") && !hasPrefix(old(*ID), "lmm:alert") ==> alert.Cause != nil && *alert.Cause == old(causeOf(alert))
+//@   ensures [timetabled-no-service-kept-unless-asked] !e.opts.SkipTimetabledNoServiceAlerts && !elevatorID(old(*ID)) ==> !result
+//@   ensures [dropped-only-for-a-reason] result && !elevatorID(old(*ID)) ==> e.opts.SkipTimetabledNoServiceAlerts && (exists k int :: 0 <= k && k < len(alert.InformedEntity) && timetabledNoService(alert.InformedEntity[k]))
+//@   ensures [no-metadata-unless-asked] !e.opts.AddNyctMetadata && !elevatorID(old(*ID)) ==> alert.DescriptionText == old(alert.DescriptionText) && (alert.DescriptionText != nil ==> *alert.DescriptionText == old(*alert.DescriptionText))
+//@   ensures [no-metadata-without-mercury-data] !hasExt(alert, "E_MercuryAlert") && !elevatorID(old(*ID)) ==> alert.DescriptionText == old(alert.DescriptionText) && (alert.DescriptionText != nil ==> *alert.DescriptionText == old(*alert.DescriptionText))
+//@   ensures [informed-entities-untouched] !elevatorID(old(*ID)) ==> alert.InformedEntity == old(alert.InformedEntity) && *ID == old(*ID)
+//@   loop 1 invariant alert != nil && ID != nil
+//@   loop 1 invariant !elevatorID(old(*ID)) ==> alert.InformedEntity == old(alert.InformedEntity) && *ID == old(*ID) && alert.DescriptionText == old(alert.DescriptionText) && (alert.DescriptionText != nil ==> *alert.DescriptionText == old(*alert.DescriptionText))
+//@   loop 1 invariant !elevatorID(old(*ID)) ==> alert.Cause != nil && *alert.Cause == (hasPrefix(old(*ID), "lmm:planned_work") ? gtfsrt.Alert_MAINTENANCE : (hasPrefix(old(*ID), "lmm:alert") ? gtfsrt.Alert_TECHNICAL_PROBLEM : old(causeOf(alert))))
+//@   loop 1 invariant e.opts.SkipTimetabledNoServiceAlerts ==> (forall k int :: 0 <= k && k < $i ==> !timetabledNoService(alert.InformedEntity[k]))
+//@   loop 1 invariant !elevatorID(old(*ID)) && (forall k int :: 0 <= k && k < $i ==> !prioOK(alert.InformedEntity[k])) ==> alert.Effect == old(alert.Effect)
+//@   loop 1 step [effect-follows-the-priority-table] prioOK(alert.InformedEntity[athead(1, $i)]) && has(priortyToEffect, prioVal(alert.InformedEntity[athead(1, $i)])) ==> alert.Effect != nil && *alert.Effect == priortyToEffect[prioVal(alert.InformedEntity[athead(1, $i)])]
+//@   loop 1 step [unmapped-priority-keeps-effect] !(prioOK(alert.InformedEntity[athead(1, $i)]) && has(priortyToEffect, prioVal(alert.InformedEntity[athead(1, $i)]))) ==> alert.Effect == athead(1, alert.Effect)
